@@ -98,9 +98,9 @@ func cmdCheck(args []string) {
 			fatal("known_findings.json: %v", err)
 		}
 	}
-	timeout := 20
+	timeout := 60
 	if *tier == "thorough" {
-		timeout = 120
+		timeout = 240
 		if cfg.ThoroughTimeout > 0 {
 			timeout = cfg.ThoroughTimeout
 		}
